@@ -49,6 +49,10 @@ Step(e) ==
                        IF Has(e, "mustok") /\ e.mustok THEN "a call whose reply had been received completely returned an error"
                        ELSE "a call whose reply was not received returned no error")
          /\ UNCHANGED <<outstanding, regs>>
+    [] e.ev = "IdStress" ->
+         \* C03 / ClientConn!NextIdAtomic: concurrent draws of request ids are pairwise distinct
+         /\ c03' = Set(c03, e.distinct # e.draws, "two requests in flight carry the same id (concurrent nextID calls returned the same value)")
+         /\ UNCHANGED <<bad, open, outstanding, regs, c04>>
     [] e.ev = "Judge" ->
          \* C04: replies received completely before the failure are kept, every other call fails
          /\ c04' = Set(c04, (e.mustok /\ e.err # "") \/ (e.musterr /\ e.err = ""),
